@@ -5,19 +5,23 @@ NOTES = ("All checks: bin/check <id> --tier quick|thorough; exit 0 held / 1 VIOL
          "Known findings: /verif/findings/known_findings.jsonl.")
 NOT_APPLICABLE = {}
 _TB = ("Trusted: TLC, the witness-lattice theorem of DESIGN.md 3.2 (finite evaluation = real-plane DE-9IM on octilinear input), "
-       "exactness of the affine maps used as variants, serde_json, and the 200-line dispatch of the harness. Small scope: rings "
-       "with <= 6 vertices on 3x3 / 4x4 vertex grids, <= 3 members per collection; larger coordinates only as exact affine images.")
+       "exactness of the affine maps used as variants, serde_json, and the 200-line dispatch of the harness. Scope: exhaustive over "
+       "rings with <= 6 vertices on 3x3 / 4x4 vertex grids and <= 3 members per collection; beyond that parametric families with "
+       "closed-form expectations (operands of 10 - 50 segments), exact affine images for magnitude, and the perturbed-degenerate "
+       "family Gen_RelPert (one-ulp offsets, 53-bit mantissas); every case in many spellings (DESIGN.md 0.4).")
 CHECKS = {
  "C01": dict(
     text=("TLC enumerates ordered pairs of valid geometries of all 10 types (one state per pair) and computes the true DE-9IM "
           "matrix from the point-set definition (PointSet.tla); every pair is replayed into relate() (concrete, Geometry enum, "
           "transposed, representation variants, exact affine images) and must match exactly. Exhaustive over the catalogue in "
-          "the thorough tier, strided sample (seeded) in the quick tier."),
+          "the thorough tier, strided sample (seeded) in the quick tier. The accessors of the returned matrix (get, matches, is_*) are "
+          "compared with their OGC definitions evaluated by TLC; Gen_RelPert adds lines leaving a triangle vertex one ulp off an edge."),
     note=_TB, technique="TLA+ point-set DE-9IM oracle enumerated by TLC; spec->impl replay", design_ref="DESIGN.md 5 C01, 3.2"),
  "C02": dict(
     text=("Masks of the TLC-computed true matrix decide intersects/contains/within for every implemented type pair (concrete, "
           "Geometry, Coord operands, swapped, variants, exact maps); Pos(g,p) for every fine-lattice point decides "
-          "coordinate_position / intersects(coord) / contains(coord)."),
+          "coordinate_position / intersects(coord) / contains(coord). Also: every pair of lattice segments of Gen_Segments (zero-length "
+          "ones included) through intersects in 15 spellings, the named predicates of the returned IntersectionMatrix, Gen_RelPert."),
     note=_TB, technique="TLA+ Pos / DE-9IM masks enumerated by TLC; spec->impl replay", design_ref="DESIGN.md 5 C02"),
  "C04": dict(
     text=("Generate -> execute -> validate. Gen_BoolOps.tla: TLC enumerates candidate operands on the octilinear witness lattice and keeps "
